@@ -459,15 +459,53 @@ def mkCodon (codonAlphabet : List Char) (s : List Char) : V (List Char) :=
 
 /-! ### Sequence.append of two located single-interval pieces; parent compatibility of operand lists -/
 
-/-- `from_single_intervals`: the set of `parent.strip_location_info()` (hash + `__eq__`: every field, the
-    grand-parent included) must have one element; `keys` are the parents as `PKey` chains (`[]` = None) -/
-def fsiParents (keys : List PKey) : V Unit :=
+/-- one level of a parent chain, as `Parent.__eq__` / `equals_except_location` / `__hash__` read it: id, sequence type,
+    the (parent-less) sequence's text, and the child location stored on this Parent (where the level below sits on it;
+    `none` on the first level of an operand's key: that location is the operand itself and is ignored / stripped) -/
+structure PLevel where
+  id : Option String
+  ty : Option String
+  seq : Option (List Char)
+  loc : Option (Strand × Nat × Nat)
+  deriving DecidableEq, Repr, Inhabited
+
+/-- a Parent with its ancestors: `[parent, grand-parent, …]`; `[]` = None -/
+abbrev PChain := List PLevel
+
+def levelEq (x y : PLevel) : Bool := x.id == y.id && x.ty == y.ty && x.seq == y.seq
+
+/-- `Parent.__eq__`: `equals_except_location(other) and self.location == other.location and self.strand is
+    other.strand` (the strand is the stored location's strand).  Ancestors are compared only when BOTH sides have one
+    (`if self.parent and other.parent and self.parent != other.parent`), and then with `!=`, i.e. with THIS function:
+    the location of every ancestor level counts. -/
+def parentEqFull : PChain → PChain → Bool
+  | x :: xs, y :: ys =>
+      levelEq x y && (if xs.isEmpty || ys.isEmpty then true else parentEqFull xs ys) && x.loc == y.loc
+  | _, _ => false
+
+/-- `Parent.equals_except_location`: the first level without its location, every ancestor level in full -/
+def eqExceptLocC : PChain → PChain → Bool
+  | x :: xs, y :: ys => levelEq x y && (if xs.isEmpty || ys.isEmpty then true else parentEqFull xs ys)
+  | _, _ => false
+
+/-- `ObjectValidation.require_parents_equal_except_location` -/
+def requireParentsEqC (a b : PChain) : R Unit :=
+  match a, b with
+  | [], [] => pure ()
+  | [], _ :: _ => throw .MismatchedParent
+  | _ :: _, [] => throw .MismatchedParent
+  | _ :: _, _ :: _ => if eqExceptLocC a b then pure () else throw .MismatchedParent
+
+/-- `from_single_intervals`: the SET of `parent.strip_location_info()` must have one element.  Set membership goes
+    through `__hash__` (every field of every level, the ancestors' locations included, presence of an ancestor
+    included) before `__eq__`, so two stripped parents are one element exactly when their chains are identical. -/
+def fsiParents (keys : List PChain) : V Unit :=
   match keys with
   | [] => raise .ValueError                         -- "List of intervals must be nonempty"
   | k :: rest => if rest.all (fun k' => decide (k' = k)) then pure () else raise .ValueError
 
 /-- the parent test of the binary operations (`require_parents_equal_except_location`) -/
-def binaryParents (a b : PKey) : V Unit := liftR (requireParentsEq a b)
+def binaryParents (a b : PChain) : V Unit := liftR (requireParentsEqC a b)
 
 /-- the multi-operand operations of the `pcons` grid -/
 inductive POp where
@@ -475,7 +513,7 @@ inductive POp where
   deriving DecidableEq, Repr                     --         has_overlap with strict_parent_compare, distance_to
 
 /-- the parent test of one multi-operand operation, with the exception class that operation raises -/
-def pconsModel (op : POp) (keys : List PKey) : V Unit :=
+def pconsModel (op : POp) (keys : List PChain) : V Unit :=
   match op with
   | .fsi => fsiParents keys
   | _ => match keys with
@@ -483,7 +521,7 @@ def pconsModel (op : POp) (keys : List PKey) : V Unit :=
         match op with
         | .mkpar => if a.isEmpty || b.isEmpty then pure () else binaryParents a b
         | .append =>
-            (match requireParentsEq a b with
+            (match requireParentsEqC a b with
              | .ok _ => pure ()
              | .error _ => raise .ValueError)
         | .locrel =>
@@ -493,19 +531,35 @@ def pconsModel (op : POp) (keys : List PKey) : V Unit :=
         | _ => binaryParents a b
     | _ => raise .ValueError
 
-/-- the parent kinds of `impl_validate.parent_kind` as `PKey` chains -/
-def kindKey : Nat → Option PKey
+def lv (id ty : Option String) (seq : Option String) (loc : Option (Strand × Nat × Nat)) : PLevel :=
+  ⟨id, ty, seq.map String.toList, loc⟩
+
+/-- the parent kinds of `impl_validate.parent_kind` as chains -/
+def kindKey : Nat → Option PChain
   | 0 => some []
-  | 1 => some [(some "p", none, none)]
-  | 2 => some [(some "p", some "chromosome", none)]
-  | 3 => some [(some "p", some "plasmid", none)]
-  | 4 => some [(some "p", none, some "ACGTACGTAC".toList)]
-  | 5 => some [(some "p", none, some "TTTTTTTTTT".toList)]
-  | 6 => some [(some "p", none, none), (some "gA", none, none)]
-  | 7 => some [(some "p", none, none), (some "gB", none, none)]
-  | 8 => some [(none, some "X", none)]
-  | 9 => some [(none, some "Y", none)]
+  | 1 => some [lv (some "p") none none none]
+  | 2 => some [lv (some "p") (some "chromosome") none none]
+  | 3 => some [lv (some "p") (some "plasmid") none none]
+  | 4 => some [lv (some "p") none (some "ACGTACGTAC") none]
+  | 5 => some [lv (some "p") none (some "TTTTTTTTTT") none]
+  | 6 => some [lv (some "p") none none none, lv (some "gA") none none none]
+  | 7 => some [lv (some "p") none none none, lv (some "gB") none none none]
+  | 8 => some [lv none (some "X") none none]
+  | 9 => some [lv none (some "Y") none none]
+  -- the parent sits on a grand-parent `g`: same ids / types / sequences, different places or strands
+  | 10 => some [lv (some "p") none none none, lv (some "g") (some "chromosome") none (some (.plus, 0, 10))]
+  | 11 => some [lv (some "p") none none none, lv (some "g") (some "chromosome") none (some (.plus, 20, 30))]
+  | 12 => some [lv (some "p") none none none, lv (some "g") (some "chromosome") none (some (.minus, 0, 10))]
+  | 13 => some [lv (some "p") none (some "ACGTACGTAC") none, lv (some "g") (some "chromosome") none (some (.plus, 0, 10))]
+  | 14 => some [lv (some "p") none (some "ACGTACGTAC") none, lv (some "g") (some "chromosome") none (some (.plus, 20, 30))]
+  -- depth 3: the grand-parent sits on a great-grand-parent at two different places
+  | 15 => some [lv (some "p") none none none, lv (some "g") (some "chromosome") none (some (.plus, 0, 10)),
+                lv (some "gg") none none (some (.plus, 0, 50))]
+  | 16 => some [lv (some "p") none none none, lv (some "g") (some "chromosome") none (some (.plus, 0, 10)),
+                lv (some "gg") none none (some (.plus, 100, 150))]
   | _ => none
+
+def nKinds : Nat := 17
 
 /-! ### scan_windows -/
 
